@@ -397,6 +397,14 @@ fn gen_conn(rng: &mut Rng) -> ConnScenario {
             _ => WRule::Accept { max: 100_000 },
         });
     }
+    // the client's encrypted frames (Login Acknowledged onwards start around offset 330) arrive in pieces too
+    for _ in 0..rng.below(4) {
+        client.cuts.push(crate::client::Cut {
+            at: rng.range(300, 380),
+            gate: if rng.chance(1, 2) { crate::pipe::Gate::Now } else { crate::pipe::Gate::Delay { ns: rng.range(1, 3) * 1_000_000 } },
+            spurious: rng.below(3) as u8,
+        });
+    }
     ConnScenario {
         seed: rng.next_u64(),
         cfg: ConnCfg {
